@@ -37,7 +37,7 @@ type c06defects struct {
 	begin   string // ok | other | junk
 	sender  string // ok | swapped | foreign | empty | absent   (the inbound SenderCompID)
 	target  string
-	stime   string // now | inside | outside-past | outside-future | malformed | empty | absent
+	stime   string // now | inside | outside-past | outside-future | outside-centuries-past/-future | malformed | empty | absent
 	seq     string // at | high | low | absent | empty | junk
 	possdup string // "" | Y | N
 	orig    string // "" | earlier | later
@@ -54,7 +54,7 @@ func (d c06defects) list(checkLatency, recovering, useDict bool) []string {
 	}
 	windowChecked := checkLatency && !recovering
 	switch d.stime {
-	case "outside-past", "outside-future":
+	case "outside-past", "outside-future", "outside-centuries-past", "outside-centuries-future":
 		if windowChecked {
 			l = append(l, "time:stale")
 		}
@@ -164,7 +164,7 @@ func c06Property(t *rapid.T) {
 				}
 			}
 		case "time":
-			d.stime = rapid.SampledFrom([]string{"outside-past", "outside-future", "malformed", "empty", "absent"}).Draw(t, "d-time")
+			d.stime = rapid.SampledFrom([]string{"outside-past", "outside-future", "outside-past", "outside-future", "outside-centuries-past", "outside-centuries-future", "malformed", "empty", "absent"}).Draw(t, "d-time")
 		case "seq":
 			opts := []string{"high", "absent", "empty", "junk"}
 			if T > 1 && state != "logon" {
@@ -232,6 +232,13 @@ func c06Property(t *rapid.T) {
 	case "outside-future":
 		sending = now.Add(window + 30*time.Second)
 		o.SendingTime = stamp(sending)
+	case "outside-centuries-past":
+		// (a well-formed timestamp further from now than a 64-bit nanosecond count can express)
+		sending = now.Add(-window - time.Hour)
+		o.SendingTime = rapid.SampledFrom([]string{"00020101-00:00:00", "16000229-12:00:00", "17200101-00:00:00"}).Draw(t, "centuries-past")
+	case "outside-centuries-future":
+		sending = now.Add(window + time.Hour)
+		o.SendingTime = rapid.SampledFrom([]string{"99981231-23:59:59", "24260101-00:00:00", "23300101-00:00:00"}).Draw(t, "centuries-future")
 	case "malformed":
 		o.SendingTime = "2024-01-01"
 	case "empty":
@@ -255,8 +262,14 @@ func c06Property(t *rapid.T) {
 	switch d.orig {
 	case "earlier":
 		o.OrigSending = stamp(sending.Add(-5 * time.Second))
+		if d.stime == "outside-centuries-past" {
+			o.OrigSending = "00010101-00:00:00"
+		}
 	case "later":
 		o.OrigSending = stamp(sending.Add(45 * time.Second))
+		if d.stime == "outside-centuries-future" {
+			o.OrigSending = "99991231-23:59:59"
+		}
 	}
 	if d.subs {
 		o.ExtraHeader = []fixwire.Field{fixwire.F(50, "ssub"), fixwire.F(57, "tsub"), fixwire.F(115, "obo"), fixwire.F(128, "dto"), fixwire.F(116, "obosub"), fixwire.F(129, "dtosub")}
